@@ -426,6 +426,9 @@ def r_mag(E):
                 recv = n.func.value
             if isinstance(n, ast.Call) and isinstance(n.func, ast.Name) and n.func.id == "round" and n.args:
                 recv = n.args[0]
+                # round(<q>.to(<unit>).magnitude, n): the number rounded is the magnitude of <q> in that unit
+                while isinstance(recv, ast.Attribute) and recv.attr in ("magnitude", "m"):
+                    recv = recv.value
             if recv is None:
                 continue
             fn, cls = UN.enclosing(n)
